@@ -156,7 +156,7 @@ func BuildAt(b *node.Node, parent *types.Block, tm uint32, txs types.Transaction
 		if d == dist {
 			blk, invalid, err := b.Build(parent, r, rounds, txs, extra)
 			if err != nil {
-				engine.Failf("build on %s at %d: %v", parent.Hash().Prefix(), tm, err)
+				engine.Realf("build on %s at %d: %v", parent.Hash().Prefix(), tm, err)
 			}
 			if blk.Time() != abs {
 				engine.Failf("built block has time %d, wanted %d", blk.Time(), abs)
